@@ -512,6 +512,8 @@ def body(c):
         elif k == "requires_grad" and leaves:
             target = leaves[op["t"] % len(leaves)]
             p = dic[target]
+            if not p.tensor.is_leaf:
+                continue  # the result of a reparameterised draw: torch only lets the flag of a leaf tensor change
 
             def f():
                 p.requires_grad = not p.tensor.requires_grad
